@@ -8,7 +8,7 @@ from vlib import core, dom
 
 ID = "C08"
 GEN = ["water", "gas", "oil", "fluid"]
-PROPS = ["C08_pseudopressure.v", "C08_trapz_error.v"]
+PROPS = ["C08_pseudopressure.v", "C08_trapz_error.v", "C19_signatures.v"]
 
 
 def run(ctx):
